@@ -5,7 +5,6 @@ theorems are about.  If the code changes, `Asynkit/Gen/*.lean` changes; either t
 still prove (harmless rewrite) or this file no longer builds (broken proof obligation).
 -/
 import Asynkit.Gen.PriEntry
-import Asynkit.Gen.Priority
 
 namespace Asynkit.GenEq
 open Asynkit
@@ -13,54 +12,13 @@ open Asynkit
 /-- `tools.PriEntry.__lt__` is the model's `Entry.lt` -/
 theorem priEntryLt_eq {π : Type} (plt : π → π → Bool) (a b : Entry π) :
     Gen.priEntryLt plt a b = Entry.lt plt a b := by
-  simp [Gen.priEntryLt, Entry.lt]
+  -- robust against rewrites of the boolean expression: decide it on the three atoms it reads
+  unfold Gen.priEntryLt Entry.lt
+  cases plt a.pri b.pri <;> cases plt b.pri a.pri <;> by_cases h : a.seq < b.seq <;> simp [h]
 
-/-- `PriorityValue.priority()` -/
-theorem pvPriority_eq (p : PV) : Gen.pvPriority p = p.priority := by
-  simp [Gen.pvPriority, PV.priority]
-
-/-- `PriorityValue.__lt__` -/
-theorem pvLt_eq (a b : PV) : Gen.pvLt a b = PV.lt a b := by
-  simp only [Gen.pvLt, PV.lt, pvPriority_eq]
-  by_cases h : a.cls = b.cls <;> simp [h]
-
-/-- `PosPriorityQueue.compute_priority_boost` (`max_pri` is unused by the code) -/
-theorem computeBoost_eq (factor priority minPri maxPri r : Rat) :
-    Gen.computeBoost ⟨factor⟩ priority minPri maxPri r = PosPQ.computeBoost factor priority minPri r := by
-  simp [Gen.computeBoost, PosPQ.computeBoost]
-
-/-- the counters of a model state as `update_counters` sees them -/
-def ctrOf (s : PosPQ) : Gen.Ctr := ⟨s.nIns, s.nRem, s.lastMaint, s.len, false⟩
-
-theorem doMaintenance_counters (H : HeapLib (Entry PV)) (s : PosPQ) (draw : Nat → Rat) :
-    (PosPQ.doMaintenance H s draw).nIns = s.nIns ∧ (PosPQ.doMaintenance H s draw).nRem = s.nRem ∧
-    (PosPQ.doMaintenance H s draw).lastMaint = s.lastMaint := by
-  unfold PosPQ.doMaintenance
-  by_cases hf : (s.factor == 0) = true
-  · simp [hf]
-  · simp only [hf, Bool.false_eq_true, if_false]
-    cases PosPQ.regularMinMax s.q.pq with
-    | none => simp
-    | some p =>
-      dsimp only
-      split <;> simp
-
-/-- `PosPriorityQueue.update_counters`: the model updates the counters exactly as the code does
-    and runs maintenance exactly when the code calls `do_maintenance()`. -/
-theorem updateCounters_eq (H : HeapLib (Entry PV)) (s : PosPQ) (ins : Bool) (draw : Nat → Rat) :
-    let g := Gen.updateCounters (ctrOf s) ins
-    let s' := PosPQ.updateCounters H s ins draw
-    s'.nIns = g.nIns ∧ s'.nRem = g.nRem ∧ s'.lastMaint = g.lastMaint ∧
-    s'.q = (if g.maint then (PosPQ.doMaintenance H { s with nIns := s.nIns + 1 } draw).q else s.q) := by
-  cases ins with
-  | true =>
-    have hc := doMaintenance_counters H { s with nIns := s.nIns + 1 } draw
-    simp only [Gen.updateCounters, PosPQ.updateCounters, ctrOf, PosPQ.len, if_true] at hc ⊢
-    by_cases h : max 10 s.q.pq.length + s.lastMaint < min (s.nIns + 1) s.nRem
-    · simp [h, hc.1, hc.2.1]
-    · simp [h]
-  | false =>
-    simp only [Gen.updateCounters, PosPQ.updateCounters, ctrOf, PosPQ.len, Bool.false_eq_true, if_false]
-    by_cases h : s.q.pq.length > 0 <;> simp [h]
+/- `PriorityValue.priority/__lt__`, `compute_priority_boost` and `update_counters` used to be translated by a
+   second, expression-level unit and proved here (pvPriority_eq, pvLt_eq, computeBoost_eq, updateCounters_eq).
+   They are now part of the statement-level translation of the whole class (`Gen/PosPQ.lean`) and proved in
+   `Lemmas/GenEqPosPQ.lean` (priority_eq, lt_eq, compute_priority_boost_eq, update_counters_eq). -/
 
 end Asynkit.GenEq
